@@ -1,14 +1,679 @@
 package main
 
 import (
+	"bytes"
+	"encoding/json"
 	"fmt"
+	"go/token"
+	"go/types"
 	"os"
+	"os/exec"
+	"path/filepath"
+	"regexp"
+	"sort"
+	"strconv"
+	"strings"
+	"time"
 )
+
+// replayInfo is what an obligation needs to be replayed on the real code.
+type replayInfo struct {
+	fv     *FuncVerifier
+	inputs []replayInput // receiver + parameters at entry
+	clause *Clause       // violated ensures clause (nil for safety obligations)
+	kind   string
+}
+
+type replayInput struct {
+	name string
+	typ  types.Type
+	term Term
+}
+
+const maxReplaySlice = 8
+
+// modelQuery evaluates terms in the model of an obligation (z3, then z3-new).
+type modelQuery struct {
+	smt   string
+	cache map[string]string
+	calls int
+}
+
+func (q *modelQuery) get(terms []string) (map[string]string, error) {
+	out := map[string]string{}
+	var need []string
+	for _, t := range terms {
+		if v, ok := q.cache[t]; ok {
+			out[t] = v
+		} else {
+			need = append(need, t)
+		}
+	}
+	if len(need) == 0 {
+		return out, nil
+	}
+	var sb strings.Builder
+	sb.WriteString(q.smt)
+	for _, t := range need {
+		fmt.Fprintf(&sb, "(get-value (%s))\n", t)
+	}
+	f, err := os.CreateTemp("", "govc-model-*.smt2")
+	if err != nil {
+		return nil, err
+	}
+	defer os.Remove(f.Name())
+	f.WriteString(sb.String())
+	f.Close()
+	q.calls++
+	for _, solver := range [][]string{{"z3-new", "-T:20"}, {"/usr/bin/z3", "-T:20"}} {
+		cmd := exec.Command(solver[0], append(solver[1:], f.Name())...)
+		var buf bytes.Buffer
+		cmd.Stdout = &buf
+		cmd.Run()
+		lines := strings.Split(strings.TrimSpace(buf.String()), "\n")
+		if len(lines) == 0 || strings.TrimSpace(lines[0]) != "sat" {
+			continue
+		}
+		// each get-value answer: ((term value)) possibly multi-line; re-join and split on top-level
+		rest := strings.Join(lines[1:], " ")
+		vals := splitTopLevelSexprs(rest)
+		if len(vals) != len(need) {
+			continue
+		}
+		for i, v := range vals {
+			// ((term value)) -> value
+			inner := strings.TrimSpace(v)
+			inner = strings.TrimPrefix(inner, "((")
+			inner = strings.TrimSuffix(inner, "))")
+			val := strings.TrimSpace(strings.TrimPrefix(inner, need[i]))
+			q.cache[need[i]] = val
+			out[need[i]] = val
+		}
+		return out, nil
+	}
+	return nil, fmt.Errorf("no model available")
+}
+
+func splitTopLevelSexprs(s string) []string {
+	var out []string
+	d, start := 0, -1
+	for i, c := range s {
+		switch c {
+		case '(':
+			if d == 0 {
+				start = i
+			}
+			d++
+		case ')':
+			d--
+			if d == 0 && start >= 0 {
+				out = append(out, s[start:i+1])
+				start = -1
+			}
+		}
+	}
+	return out
+}
+
+var negRe = regexp.MustCompile(`^\(-\s+(\d+)\)$`)
+
+func parseIntVal(v string) (int64, bool) {
+	v = strings.TrimSpace(v)
+	if m := negRe.FindStringSubmatch(v); m != nil {
+		n, err := strconv.ParseInt(m[1], 10, 64)
+		if err != nil {
+			// -2^63
+			if m[1] == "9223372036854775808" {
+				return -9223372036854775808, true
+			}
+			return 0, false
+		}
+		return -n, true
+	}
+	if strings.HasPrefix(v, "#x") {
+		n, err := strconv.ParseUint(v[2:], 16, 64)
+		return int64(n), err == nil
+	}
+	if strings.HasPrefix(v, "#b") {
+		n, err := strconv.ParseUint(v[2:], 2, 64)
+		return int64(n), err == nil
+	}
+	n, err := strconv.ParseInt(v, 10, 64)
+	if err != nil {
+		u, err2 := strconv.ParseUint(v, 10, 64)
+		return int64(u), err2 == nil
+	}
+	return n, true
+}
+
+// goBuilder turns model values into Go source that constructs the inputs.
+type goBuilder struct {
+	fv      *FuncVerifier
+	q       *modelQuery
+	pkg     *types.Package
+	imports map[string]string // path -> alias
+	stmts   []string
+	objs    map[string]string // heap:ref -> variable name
+	nvar    int
+	strs    map[string]string
+	maxLen  int
+	prefix  string
+	failed  string
+	bigLen  string
+}
+
+func (b *goBuilder) qual(p *types.Package) string {
+	if p == b.pkg {
+		return ""
+	}
+	if a, ok := b.imports[p.Path()]; ok {
+		return a
+	}
+	a := fmt.Sprintf("rp%d", len(b.imports))
+	b.imports[p.Path()] = a
+	return a
+}
+
+func (b *goBuilder) typeStr(t types.Type) string { return types.TypeString(t, b.qual) }
+
+func (b *goBuilder) fail(format string, args ...any) string {
+	if b.failed == "" {
+		b.failed = fmt.Sprintf(format, args...)
+	}
+	return "nil"
+}
+
+func (b *goBuilder) val1(term string) string {
+	m, err := b.q.get([]string{term})
+	if err != nil {
+		b.fail("model query failed: %v", err)
+		return "0"
+	}
+	return m[term]
+}
+
+// expr returns a Go expression for the value of SMT term `t` of Go type `typ`.
+func (b *goBuilder) expr(t Term, typ types.Type, heaps map[string]Term) string {
+	if b.failed != "" {
+		return "nil"
+	}
+	if t.Sort == nil {
+		return b.zeroOf(typ)
+	}
+	switch t.Sort.Kind {
+	case KInt, KBV:
+		v, ok := parseIntVal(b.val1(t.S))
+		if !ok {
+			return b.fail("cannot parse integer %q", b.val1(t.S))
+		}
+		if isUnsigned(typ) {
+			return fmt.Sprintf("%s(%d)", b.typeStr(typ), uint64(v))
+		}
+		return fmt.Sprintf("%s(%d)", b.typeStr(typ), v)
+	case KBool:
+		return b.val1(t.S)
+	case KString:
+		v := b.val1(t.S)
+		if b.fv.u.strTheory {
+			return fmt.Sprintf("%s(%s)", b.typeStr(typ), strconv.Quote(strings.Trim(v, `"`)))
+		}
+		if v == b.val1("str_empty") && b.fv.u.declared["const:str_empty"] {
+			return fmt.Sprintf("%s(\"\")", b.typeStr(typ))
+		}
+		if _, ok := b.strs[v]; !ok {
+			b.strs[v] = fmt.Sprintf("s%d", len(b.strs))
+		}
+		return fmt.Sprintf("%s(%q)", b.typeStr(typ), b.strs[v])
+	case KErr:
+		v, _ := parseIntVal(b.val1(t.S))
+		if v == 0 {
+			return "nil"
+		}
+		b.imports["errors"] = "errors"
+		return fmt.Sprintf("errors.New(\"replay-error-%d\")", v)
+	case KStruct:
+		st, ok := typ.Underlying().(*types.Struct)
+		if !ok {
+			return b.fail("struct sort for non-struct type %s", typ)
+		}
+		// build through a variable so unexported/embedded fields can be set by name
+		b.nvar++
+		name := fmt.Sprintf("%sv%d", b.prefix, b.nvar)
+		b.stmts = append(b.stmts, fmt.Sprintf("var %s %s", name, b.typeStr(typ)))
+		b.fillStruct(name, t, st, heaps)
+		return name
+	case KSlice:
+		n, ok := parseIntVal(b.val1(slLen(t).S))
+		if !ok || n < 0 {
+			return b.fail("bad slice length")
+		}
+		if n > maxReplaySlice {
+			b.bigLen = slLen(t).S
+			return b.fail("model needs a slice of length %d (> %d)", n, maxReplaySlice)
+		}
+		if int(n) > b.maxLen {
+			b.maxLen = int(n)
+		}
+		et := elemType(typ)
+		var elems []string
+		for i := int64(0); i < n; i++ {
+			elems = append(elems, b.expr(slAt(t, intT(i)), et, heaps))
+		}
+		return fmt.Sprintf("%s{%s}", b.typeStr(typ), strings.Join(elems, ", "))
+	case KArray:
+		et := elemType(typ)
+		var elems []string
+		for i := 0; i < t.Sort.Width && i < 64; i++ {
+			elems = append(elems, b.expr(sel(t, intT(int64(i)), t.Sort.Elem), et, heaps))
+		}
+		return fmt.Sprintf("%s{%s}", b.typeStr(typ), strings.Join(elems, ", "))
+	case KRef:
+		if t.Sort.Key != nil {
+			return b.fail("map-valued input (not replayable)")
+		}
+		r, _ := parseIntVal(b.val1(t.S))
+		if r == 0 {
+			return "nil"
+		}
+		hn := heapName(t.Sort)
+		key := fmt.Sprintf("%s:%d", hn, r)
+		if v, ok := b.objs[key]; ok {
+			return v
+		}
+		pt, ok := typ.Underlying().(*types.Pointer)
+		if !ok {
+			return b.fail("reference sort for non-pointer type %s", typ)
+		}
+		b.nvar++
+		name := fmt.Sprintf("%sp%d", b.prefix, b.nvar)
+		b.objs[key] = name
+		b.stmts = append(b.stmts, fmt.Sprintf("%s := new(%s)", name, b.typeStr(pt.Elem())))
+		h, ok := heaps[hn]
+		if !ok {
+			return name // never read: leave zero
+		}
+		obj := sel(h, Term{fmt.Sprint(r), sortInt}, t.Sort.Elem)
+		if st, ok := pt.Elem().Underlying().(*types.Struct); ok {
+			b.fillStruct("(*"+name+")", obj, st, heaps)
+		} else {
+			b.stmts = append(b.stmts, fmt.Sprintf("*%s = %s", name, b.expr(obj, pt.Elem(), heaps)))
+		}
+		return name
+	case KOpaque:
+		return b.zeroOf(typ)
+	}
+	return b.fail("unsupported sort %s in replay", t.Sort.Name)
+}
+
+func (b *goBuilder) fillStruct(lhs string, t Term, st *types.Struct, heaps map[string]Term) {
+	for i := 0; i < st.NumFields(); i++ {
+		f := st.Field(i)
+		fi := t.Sort.field(f.Name())
+		if fi == nil {
+			// unmodelled field: give pointer fields a zero object so that the real code
+			// does not trip over a nil the model never constrained
+			if pt, ok := f.Type().Underlying().(*types.Pointer); ok && f.Name() != "_" {
+				if _, isIface := pt.Elem().Underlying().(*types.Interface); !isIface {
+					b.stmts = append(b.stmts, fmt.Sprintf("%s.%s = new(%s)", lhs, f.Name(), b.typeStr(pt.Elem())))
+				}
+			}
+			continue
+		}
+		ft := b.fv.subst(f.Type())
+		fterm := mk(fi.Sort, "(%s %s)", fi.Accessor, t.S)
+		if fst, ok := ft.Underlying().(*types.Struct); ok && fi.Sort.Kind == KStruct {
+			b.fillStruct(lhs+"."+f.Name(), fterm, fst, heaps)
+			continue
+		}
+		e := b.expr(fterm, ft, heaps)
+		if b.failed != "" {
+			return
+		}
+		b.stmts = append(b.stmts, fmt.Sprintf("%s.%s = %s", lhs, f.Name(), e))
+	}
+}
+
+func (b *goBuilder) zeroOf(typ types.Type) string {
+	switch typ.Underlying().(type) {
+	case *types.Pointer, *types.Slice, *types.Map, *types.Interface, *types.Signature, *types.Chan:
+		return "nil"
+	}
+	return fmt.Sprintf("*new(%s)", b.typeStr(typ))
+}
+
+var identRe = regexp.MustCompile(`[A-Za-z_][A-Za-z0-9_]*`)
+
+// goClause renders a contract clause as executable Go: old(e) becomes e over the
+// pre-state copies (parameter x -> old_x).
+func goClause(text string, params []string) (string, error) {
+	expr, err := rewriteSpecExec(text)
+	if err != nil {
+		return "", err
+	}
+	isParam := map[string]bool{}
+	for _, p := range params {
+		isParam[p] = true
+	}
+	var out strings.Builder
+	i := 0
+	for i < len(expr) {
+		k := strings.Index(expr[i:], "__old(")
+		if k < 0 {
+			out.WriteString(expr[i:])
+			break
+		}
+		out.WriteString(expr[i : i+k])
+		j := i + k + len("__old(")
+		d := 1
+		e := j
+		for e < len(expr) && d > 0 {
+			switch expr[e] {
+			case '(':
+				d++
+			case ')':
+				d--
+			}
+			e++
+		}
+		inner := expr[j : e-1]
+		// do not rename selectors (.x) or keyed fields
+		renamed := identRe.ReplaceAllStringFunc(inner, func(id string) string { return id })
+		var sb strings.Builder
+		last := 0
+		for _, loc := range identRe.FindAllStringIndex(inner, -1) {
+			id := inner[loc[0]:loc[1]]
+			sb.WriteString(inner[last:loc[0]])
+			prevDot := loc[0] > 0 && inner[loc[0]-1] == '.'
+			if isParam[id] && !prevDot {
+				sb.WriteString("old_" + id)
+			} else {
+				sb.WriteString(id)
+			}
+			last = loc[1]
+		}
+		sb.WriteString(inner[last:])
+		_ = renamed
+		out.WriteString("(" + sb.String() + ")")
+		i = e
+	}
+	return out.String(), nil
+}
 
 // tryReplay attempts to turn a counterexample into a test on the real code.
 // Returns the replay file and whether the violation was reproduced.
 func tryReplay(dir string, o *Obligation, r *checkRun) (string, bool) {
-	return writeReplayStub(dir, o, "obligation not discharged"), false
+	stub := func(why string) (string, bool) { return writeReplayStub(dir, o, why), false }
+	if o.Result != "sat" {
+		return stub("obligation not discharged; the solver gave no model (" + o.Result + ")")
+	}
+	ri := o.replay
+	if ri == nil || ri.fv == nil || ri.fv.fd == nil {
+		return stub("no replay information for this obligation kind")
+	}
+	fv := ri.fv
+	if fv.spec.Kind == SKLemma {
+		return stub("lemma over specification functions: no executable to replay")
+	}
+	q := &modelQuery{smt: o.SMT, cache: map[string]string{}}
+	pkg := fv.fd.pkg
+	pkgNames := pkgImportNames(pkg)
+	mk := func(prefix string) *goBuilder {
+		im := map[string]string{}
+		for k, v := range pkgNames {
+			im[k] = v
+		}
+		return &goBuilder{fv: fv, q: q, pkg: pkg.Types, imports: im, objs: map[string]string{}, strs: map[string]string{}, prefix: prefix}
+	}
+	fv.frames = []*frame{{fd: fv.fd, info: pkg.TypesInfo, pkg: pkg}}
+	var cur, old *goBuilder
+	var argNames []string
+	var decls []string
+	for attempt := 0; attempt < 8; attempt++ {
+		cur = mk("in_")
+		old = mk("old_")
+		old.imports = cur.imports
+		old.strs = cur.strs
+		argNames, decls = nil, nil
+		retry := false
+		for _, in := range ri.inputs {
+			if in.term.Sort == nil {
+				e := cur.zeroOf(in.typ)
+				if types.TypeString(in.typ, nil) == "context.Context" {
+					cur.imports["context"] = "context"
+					e = "context.Background()"
+				}
+				decls = append(decls, fmt.Sprintf("var %s %s = %s", in.name, cur.typeStr(in.typ), e), fmt.Sprintf("old_%s := %s", in.name, in.name), fmt.Sprintf("_, _ = %s, old_%s", in.name, in.name))
+				argNames = append(argNames, in.name)
+				continue
+			}
+			e := cur.expr(in.term, in.typ, fv.initHeaps)
+			eo := old.expr(in.term, in.typ, fv.initHeaps)
+			if cur.failed != "" {
+				if cur.bigLen != "" {
+					// ask for a smaller counterexample
+					q.smt = strings.Replace(q.smt, "(check-sat)", fmt.Sprintf("(assert (<= %s 3))\n(check-sat)", cur.bigLen), 1)
+					q.cache = map[string]string{}
+					retry = true
+					break
+				}
+				return stub("counterexample not replayable: " + cur.failed)
+			}
+			if types.TypeString(in.typ, nil) == "context.Context" {
+				cur.imports["context"] = "context"
+				e, eo = "context.Background()", "context.Background()"
+			}
+			ts := cur.typeStr(in.typ)
+			decls = append(decls, fmt.Sprintf("var %s %s = %s", in.name, ts, e), fmt.Sprintf("var old_%s %s = %s", in.name, ts, eo), fmt.Sprintf("_, _ = %s, old_%s", in.name, in.name))
+			argNames = append(argNames, in.name)
+		}
+		if !retry {
+			break
+		}
+		if attempt == 7 {
+			return stub("counterexample not replayable: no small model found")
+		}
+	}
+	sig := fv.fd.fn.Type().(*types.Signature)
+	// call expression
+	var call string
+	args := argNames
+	if sig.Recv() != nil {
+		call = fmt.Sprintf("%s.%s(", args[0], fv.fd.fn.Name())
+		args = args[1:]
+	} else {
+		call = fv.fd.fn.Name() + "("
+	}
+	for i, a := range args {
+		if i > 0 {
+			call += ", "
+		}
+		if sig.Variadic() && i == sig.Params().Len()-1 {
+			call += a + "..."
+		} else {
+			call += a
+		}
+	}
+	call += ")"
+	var resNames []string
+	for _, rp := range fv.spec.Results {
+		resNames = append(resNames, rp.Name)
+	}
+	clauseGo := "true"
+	if ri.clause != nil {
+		var pnames []string
+		for _, p := range fv.spec.allParams() {
+			pnames = append(pnames, p.Name)
+		}
+		cg, err := goClause(ri.clause.Text, pnames)
+		if err != nil {
+			return stub("clause not renderable: " + err.Error())
+		}
+		clauseGo = cg
+	}
+	if strings.Contains(clauseGo, "Spec") && regexp.MustCompile(`\bSpec[A-Z]`).MatchString(clauseGo) {
+		// uninterpreted ghost functions cannot be executed
+		if usesUninterpreted(fv, clauseGo) {
+			return stub("the violated clause mentions ghost/uninterpreted specification functions: not executable")
+		}
+	}
+	testName := "TestVerifReplay_" + sanitize(o.Name)
+	var src strings.Builder
+	fmt.Fprintf(&src, "//go:build verif\n\npackage %s\n\nimport (\n\t\"testing\"\n", pkg.Name)
+	src.WriteString("/*IMPORTS*/)\n\n")
+	fmt.Fprintf(&src, "// Replay of obligation %s\n// goal: %s\n// position: %s\n", o.Name, o.Goal, o.Pos)
+	fmt.Fprintf(&src, "func %s(t *testing.T) {\n\t__replayBound = %d\n", testName, cur.maxLen+2)
+	for _, s := range cur.stmts {
+		fmt.Fprintf(&src, "\t%s\n", s)
+	}
+	for _, s := range old.stmts {
+		fmt.Fprintf(&src, "\t%s\n", s)
+	}
+	for _, s := range decls {
+		fmt.Fprintf(&src, "\t%s\n", s)
+	}
+	if len(resNames) > 0 {
+		fmt.Fprintf(&src, "\tvar (\n")
+		for i, rn := range resNames {
+			fmt.Fprintf(&src, "\t\t%s %s\n", rn, cur.typeStr(sig.Results().At(i).Type()))
+		}
+		fmt.Fprintf(&src, "\t)\n")
+	}
+	src.WriteString("\tpanicked := func() (__pv any) {\n\t\tdefer func() { __pv = recover() }()\n")
+	if len(resNames) > 0 {
+		fmt.Fprintf(&src, "\t\t%s = %s\n", strings.Join(resNames, ", "), call)
+	} else {
+		fmt.Fprintf(&src, "\t\t%s\n", call)
+	}
+	src.WriteString("\t\treturn nil\n\t}()\n")
+	for _, rn := range resNames {
+		fmt.Fprintf(&src, "\t_ = %s\n", rn)
+	}
+	wantPanic := map[string]string{"safe:idx": "index out of range", "safe:slice": "slice bounds out of range", "safe:nil": "nil pointer dereference",
+		"safe:div": "divide by zero", "safe:nilmap": "assignment to entry in nil map", "safe:make": "makeslice", "safe:panic": ""}[ri.kind]
+	if _, isSafe := map[string]bool{"safe:idx": true, "safe:slice": true, "safe:nil": true, "safe:div": true, "safe:nilmap": true, "safe:make": true, "safe:panic": true}[ri.kind]; isSafe {
+		cur.imports["fmt"] = "fmt"
+		cur.imports["strings"] = "strings"
+		fmt.Fprintf(&src, "\tif panicked != nil && strings.Contains(fmt.Sprint(panicked), %q) {\n\t\tt.Fatalf(\"VERIF-REPRODUCED: the real function panicked: %%v\", panicked)\n\t}\n", wantPanic)
+		src.WriteString("\tif panicked != nil {\n\t\tt.Skipf(\"VERIF-INCONCLUSIVE: unrelated panic: %v\", panicked)\n\t}\n")
+	} else {
+		src.WriteString("\tif panicked != nil {\n\t\tt.Skipf(\"VERIF-INCONCLUSIVE: the real function panicked (possibly on state the model does not describe): %v\", panicked)\n\t}\n")
+	}
+	fmt.Fprintf(&src, "\tif !(%s) {\n\t\tt.Fatalf(\"VERIF-REPRODUCED: clause violated on the real code: %%s\", %q)\n\t}\n", clauseGo, o.Goal)
+	src.WriteString("\tt.Log(\"VERIF-NOT-REPRODUCED: the clause holds on these inputs\")\n}\n")
+	// only the imports the file uses
+	var ipaths []string
+	for p := range cur.imports {
+		ipaths = append(ipaths, p)
+	}
+	sort.Strings(ipaths)
+	body := src.String()
+	var ib strings.Builder
+	for _, p := range ipaths {
+		if regexp.MustCompile(`(^|[^A-Za-z0-9_])` + regexp.QuoteMeta(cur.imports[p]) + `\.`).MatchString(body) {
+			fmt.Fprintf(&ib, "\t%s %q\n", cur.imports[p], p)
+		}
+	}
+	body = strings.Replace(body, "/*IMPORTS*/", ib.String(), 1)
+	src.Reset()
+	src.WriteString(body)
+	// files
+	os.MkdirAll(dir, 0o755)
+	base := filepath.Join(dir, sanitize(o.Name))
+	testFile := base + "_test.go"
+	os.WriteFile(testFile, []byte(src.String()), 0o644)
+	// executable spec file: the generated one with runtime helper bodies
+	pdir := pkgDir(fv.fd.pkg)
+	repl := map[string]string{filepath.Join(pdir, "zz_verif_replay_test.go"): testFile}
+	// executable specification files for every package with contracts
+	var cpaths []string
+	for pp := range fv.prog.contracts {
+		cpaths = append(cpaths, pp)
+	}
+	sort.Strings(cpaths)
+	for _, pp := range cpaths {
+		specSrc, err := replaySpecFile(fv.prog, pp, fv.prog.contracts[pp])
+		if err != nil {
+			return stub("cannot build executable specification file: " + err.Error())
+		}
+		specFile := base + "_spec_" + sanitize(strings.TrimPrefix(pp, "github.com/synnaxlabs/")) + ".go"
+		os.WriteFile(specFile, []byte(specSrc), 0o644)
+		repl[filepath.Join(pkgDir(fv.prog.pkgs[pp]), "zz_verif_spec_gen.go")] = specFile
+	}
+	overlay := map[string]any{"Replace": repl}
+	ovFile := base + "_overlay.json"
+	data, _ := json.MarshalIndent(overlay, "", " ")
+	os.WriteFile(ovFile, data, 0o644)
+	meta := map[string]any{"obligation": o.Name, "goal": o.Goal, "pos": o.Pos, "test": testName, "package_dir": pdir, "overlay": ovFile, "test_file": testFile, "smt": o.File, "solver": o.Solver}
+	metaFile := base + ".replay.json"
+	out, reproduced, ran := runReplay(pdir, ovFile, testName)
+	meta["ran"] = ran
+	meta["reproduced"] = reproduced
+	meta["output"] = out
+	md, _ := json.MarshalIndent(meta, "", " ")
+	os.WriteFile(metaFile, md, 0o644)
+	return metaFile, reproduced
+}
+
+func usesUninterpreted(fv *FuncVerifier, clause string) bool {
+	for _, sp := range fv.prog.specs {
+		if sp.Kind == SKSpecFunc && sp.Body == "" && regexp.MustCompile(`\b`+regexp.QuoteMeta(sp.Name)+`\(`).MatchString(clause) {
+			return true
+		}
+	}
+	return false
+}
+
+// runReplay runs the generated test with go test -overlay on the real code.
+func runReplay(pdir, overlay, testName string) (string, bool, bool) {
+	modDir := pdir
+	for modDir != "/" {
+		if _, err := os.Stat(filepath.Join(modDir, "go.mod")); err == nil {
+			break
+		}
+		modDir = filepath.Dir(modDir)
+	}
+	rel, _ := filepath.Rel(modDir, pdir)
+	cmd := exec.Command("go", "test", "-tags=verif", "-overlay", overlay, "-vet=off", "-v", "-count=1", "-timeout", "120s", "-run", "^"+testName+"$", "./"+rel)
+	cmd.Dir = modDir
+	env := []string{}
+	for _, e := range os.Environ() {
+		if strings.HasPrefix(e, "GOFLAGS=") || strings.HasPrefix(e, "GOTOOLCHAIN=") || strings.HasPrefix(e, "GOSUMDB=") || strings.HasPrefix(e, "GOWORK=") {
+			continue
+		}
+		env = append(env, e)
+	}
+	cmd.Env = append(env, "GOFLAGS=-mod=mod", "GOTOOLCHAIN=local", "GOPROXY=off", "GOSUMDB=off", "GOWORK=off")
+	var buf bytes.Buffer
+	cmd.Stdout = &buf
+	cmd.Stderr = &buf
+	done := make(chan error, 1)
+	go func() { done <- cmd.Run() }()
+	select {
+	case <-done:
+	case <-time.After(300 * time.Second):
+		cmd.Process.Kill()
+		return "replay timed out", false, false
+	}
+	out := buf.String()
+	if len(out) > 6000 {
+		out = out[:6000]
+	}
+	if strings.Contains(out, "VERIF-REPRODUCED") {
+		return out, true, true
+	}
+	return out, false, strings.Contains(out, "VERIF-NOT-REPRODUCED")
+}
+
+// replaySpecFile: the generated specification file with executable helper bodies.
+func replaySpecFile(prog *Prog, pkgPath string, pc *PkgContracts) (string, error) {
+	if pc == nil {
+		return "", fmt.Errorf("package has no contracts")
+	}
+	p := prog.pkgs[pkgPath]
+	if p == nil {
+		return "", fmt.Errorf("package not loaded")
+	}
+	return genSpecForX(p, pc, true)
 }
 
 func cmdReplay(path string) int {
@@ -17,8 +682,30 @@ func cmdReplay(path string) int {
 		fmt.Println("ERROR:", err)
 		return 2
 	}
-	fmt.Print(string(data))
+	if !strings.HasSuffix(path, ".replay.json") {
+		fmt.Print(string(data))
+		fmt.Println("(no executable replay for this obligation: no-failing-input-found)")
+		return 0
+	}
+	var meta map[string]any
+	if err := json.Unmarshal(data, &meta); err != nil {
+		fmt.Println("ERROR:", err)
+		return 2
+	}
+	out, reproduced, ran := runReplay(meta["package_dir"].(string), meta["overlay"].(string), meta["test"].(string))
+	fmt.Println(out)
+	if reproduced {
+		fmt.Printf("REPRODUCED obligation=%s\n", meta["obligation"])
+		return 1
+	}
+	if !ran {
+		fmt.Println("replay could not run")
+		return 2
+	}
+	fmt.Printf("NOT-REPRODUCED obligation=%s\n", meta["obligation"])
 	return 0
 }
 
 func runLockset(prog *Prog, pf *PropFile) []*Obligation { return nil }
+
+var _ = token.NoPos
